@@ -62,6 +62,7 @@ def case_strategy(draw, big=False):
             l['attach'] = [draw(st.integers(0, len(topo.pulses) - 1))]
         lds.append(l)
     case['loads'] = lds
+    case['ffpwr'] = gen.r6(draw(gen.logf(1e-3, 1e5))) if draw(st.integers(0, 3)) == 0 else None
     return case
 
 
@@ -218,14 +219,20 @@ def check(case):
     # gain
     if common.net_power_ok(mg) and common.net_power_ok(mf):
         A = build.mm.Angle
-        mg.compute_far_field(A(3, 12, 8), A(0, 40, 9))
-        mf.compute_far_field(A(3, 12, 8), A(0, 40, 9))
+        # (the gain is a ratio to the power the sources deliver: a requested power level must not enter it)
+        kwp = {'pwr': case['ffpwr']} if case.get('ffpwr') else {}
+        mg.compute_far_field(A(3, 12, 8), A(0, 40, 9), **kwp)
+        mf.compute_far_field(A(3, 12, 8), A(0, 40, 9), **kwp)
         gg, gf = np.array(mg.far_field.gain), np.array(mf.far_field.gain)
         msk = gg > gg[..., 2].max() - 40
         d = np.abs(gg - gf - 3.0103)[msk]
         if d.size and d.max() > common.gain_tol_db((mg, mf), tol):
             fails.append(('gain', 'gain over ground minus gain of the free-space pair differs from 3.0103 dB by %.3g dB' % d.max()))
         # the field itself (same voltages): over ground it equals the field of the pair in the upper half space
+        if kwp:
+            labels.append('power-requested')
+            mg.compute_far_field(A(3, 12, 8), A(0, 40, 9))
+            mf.compute_far_field(A(3, 12, 8), A(0, 40, 9))
         eg = np.hypot(np.abs(np.array(mg.far_field.e_theta)), np.abs(np.array(mg.far_field.e_phi)))
         ef = np.hypot(np.abs(np.array(mf.far_field.e_theta)), np.abs(np.array(mf.far_field.e_phi)))
         de = np.abs(eg - ef).max() / max(eg.max(), 1e-300)
